@@ -407,6 +407,7 @@ type simConn struct {
 	onWrite   func([]byte) error // sees every Write call; a non-nil error fails the write
 	onWritten func(n, total int) // how many bytes of a Write the wire accepted
 	onResult  func(err error)    // the result of every Write call
+	slowAt    func(p []byte) (int, time.Duration) // deliver only the first n bytes of this Write, the rest after a pause
 	wdeadline time.Time
 	failRead  error
 }
@@ -472,6 +473,10 @@ func (c *simConn) Write(p []byte) (n int, err error) {
 	deadline := c.wdeadline
 	c.mu.Unlock()
 	written := 0
+	cut, pause := 0, time.Duration(0)
+	if c.slowAt != nil {
+		cut, pause = c.slowAt(p)
+	}
 	finish := func(n int, err error) (int, error) {
 		if c.onWritten != nil {
 			c.onWritten(n, len(p))
@@ -485,6 +490,9 @@ func (c *simConn) Write(p []byte) (n int, err error) {
 			return finish(written, io.ErrClosedPipe)
 		}
 		room := len(p) - written
+		if cut > written && room > cut-written {
+			room = cut - written // the first part only; the rest after the pause
+		}
 		if c.wr.cap > 0 {
 			if free := c.wr.cap - len(c.wr.buf); free < room {
 				room = free
@@ -500,6 +508,16 @@ func (c *simConn) Write(p []byte) (n int, err error) {
 		}
 		if written == len(p) {
 			return finish(written, nil)
+		}
+		if cut > 0 && written == cut {
+			// the connection stalls in the middle of this frame (the peer sees its first part only)
+			cut = 0
+			select {
+			case <-time.After(pause):
+			case <-c.closeCh:
+				return finish(written, &net.OpError{Op: "write", Net: "sim", Err: net.ErrClosed})
+			}
+			continue
 		}
 		// the wire is full: wait for the peer to read, the deadline, or the close
 		var timer <-chan time.Time
